@@ -479,8 +479,8 @@ theorem unary_len : ∀ (r : Bits) (n : Nat) (rest : Bits), unary r = some (n, r
       simp only [List.length_cons]; omega
 
 /-- iterations of the `deserialize_unary` loop never exceed the bits of the cell -/
-theorem readLabel_iters (bits : Bits) (m : Int) : (readLabel bits m).2 ≤ bits.length := by
-  unfold readLabel
+theorem readLabelRaw_iters (bits : Bits) (m : Int) : (readLabelRaw bits m).2 ≤ bits.length := by
+  unfold readLabelRaw
   match bits with
   | [] => simp
   | false :: r =>
@@ -492,9 +492,314 @@ theorem readLabel_iters (bits : Bits) (m : Int) : (readLabel bits m).2 ≤ bits.
       have := unary_len r n rest h
       simp only [List.length_cons]; omega
   | [true] => simp
-  | true :: false :: r => simp only []; split <;> simp
+  | true :: false :: r => simp only []; split <;> (try split) <;> simp
   | [true, true] => simp
-  | true :: true :: _ :: r => simp only []; split <;> simp
+  | true :: true :: _ :: r => simp only []; split <;> (try split) <;> simp
+
+/-- the `{n <= m}` test changes the verdict only, not the work done before it -/
+theorem readLabel_snd (bits : Bits) (m : Int) : (readLabel bits m).2 = (readLabelRaw bits m).2 := by
+  unfold readLabel
+  rcases readLabelRaw bits m with ⟨l, it⟩
+  cases l with
+  | none => rfl
+  | some n => simp only []; split <;> rfl
+
+theorem readLabel_iters (bits : Bits) (m : Int) : (readLabel bits m).2 ≤ bits.length := by
+  rw [readLabel_snd]; exact readLabelRaw_iters bits m
+
+/-- a label `deserialize_hml` returns fits the remaining key (so the remaining key was not negative) -/
+theorem readLabel_le {bits : Bits} {m : Int} {n it : Nat} (h : readLabel bits m = (some n, it)) : (n : Int) ≤ m := by
+  unfold readLabel at h
+  rcases hr : readLabelRaw bits m with ⟨l, it'⟩
+  rw [hr] at h
+  cases l with
+  | none => simp at h
+  | some n' =>
+    simp only [] at h
+    split at h
+    · simp at h
+    · rename_i hgt
+      simp only [Prod.mk.injEq, Option.some.injEq] at h
+      obtain ⟨rfl, _⟩ := h
+      omega
+
+/-- a label longer than the remaining key makes `deserialize_hml` raise -/
+theorem readLabel_too_long {bits : Bits} {m : Int} {n it : Nat} (h : readLabelRaw bits m = (some n, it)) (hgt : m < (n : Int)) :
+    readLabel bits m = (none, it) := by
+  simp [readLabel, h, hgt]
+
+/-! ### the recursion depth of the dictionary parser is bounded by the key length -/
+
+/-- with a negative key length the very first label is refused: one `parse` call (+ its unary loop), no recursion -/
+theorem dictParse_neg (g : DDag) (f v : Nat) (k : Int) (hk : k < 0) :
+    ∃ s, dictParse g (f + 1) v k = .raised s ∧ dictCalls g (f + 1) v k = .raised (min s 1) := by
+  unfold dictParse dictCalls
+  cases hv : g[v]? with
+  | none => exact ⟨0, rfl, rfl⟩
+  | some nd =>
+    simp only []
+    rcases hl : readLabel nd.bits k with ⟨l, it⟩
+    cases l with
+    | none => exact ⟨1 + it, rfl, by simp⟩
+    | some l => have := readLabel_le hl; omega
+
+/-- **depth bound.** The remaining key length is never negative inside a parse, and every level of the recursion consumes at
+least the fork bit: fuel (= recursion depth) `k + 1` is enough for key length `k`, on ANY cell graph (shared, even cyclic). -/
+theorem dictParse_no_oof (g : DDag) : ∀ (f v : Nat) (k : Int), 1 ≤ f → k < (f : Int) → dictParse g f v k ≠ .oof := by
+  intro f
+  induction f with
+  | zero => intro v k h; omega
+  | succ n ih =>
+    intro v k _ hk
+    unfold dictParse
+    cases hv : g[v]? with
+    | none => simp
+    | some nd =>
+      simp only []
+      rcases hl : readLabel nd.bits k with ⟨l, it⟩
+      cases l with
+      | none => simp
+      | some l =>
+        have hle := readLabel_le hl
+        simp only []
+        split
+        · simp
+        · split
+          · simp
+          · rename_i hm
+            have hm' : k - (l : Int) ≠ 0 := by simpa using hm
+            have h1 : 1 ≤ n := by omega
+            have h2 : k - (l : Int) - 1 < (n : Int) := by omega
+            cases hkids : nd.kids with
+            | nil => simp
+            | cons a rest =>
+              simp only []
+              have iha := ih a (k - (l : Int) - 1) h1 h2
+              cases ha : dictParse g n a (k - (l : Int) - 1) with
+              | oof => exact absurd ha iha
+              | raised s => simp
+              | done s1 =>
+                cases rest with
+                | nil => simp
+                | cons b rest2 =>
+                  simp only []
+                  have ihb := ih b (k - (l : Int) - 1) h1 h2
+                  cases hb : dictParse g n b (k - (l : Int) - 1) with
+                  | oof => exact absurd hb ihb
+                  | raised s => simp
+                  | done s2 => simp
+
+theorem dictCalls_no_oof (g : DDag) : ∀ (f v : Nat) (k : Int), 1 ≤ f → k < (f : Int) → dictCalls g f v k ≠ .oof := by
+  intro f
+  induction f with
+  | zero => intro v k h; omega
+  | succ n ih =>
+    intro v k _ hk
+    unfold dictCalls
+    cases hv : g[v]? with
+    | none => simp
+    | some nd =>
+      simp only []
+      rcases hl : readLabel nd.bits k with ⟨l, it⟩
+      cases l with
+      | none => simp
+      | some l =>
+        have hle := readLabel_le hl
+        simp only []
+        split
+        · simp
+        · split
+          · simp
+          · rename_i hm
+            have hm' : k - (l : Int) ≠ 0 := by simpa using hm
+            have h1 : 1 ≤ n := by omega
+            have h2 : k - (l : Int) - 1 < (n : Int) := by omega
+            cases hkids : nd.kids with
+            | nil => simp
+            | cons a rest =>
+              simp only []
+              have iha := ih a (k - (l : Int) - 1) h1 h2
+              cases ha : dictCalls g n a (k - (l : Int) - 1) with
+              | oof => exact absurd ha iha
+              | raised s => simp
+              | done s1 =>
+                cases rest with
+                | nil => simp
+                | cons b rest2 =>
+                  simp only []
+                  have ihb := ih b (k - (l : Int) - 1) h1 h2
+                  cases hb : dictCalls g n b (k - (l : Int) - 1) with
+                  | oof => exact absurd hb ihb
+                  | raised s => simp
+                  | done s2 => simp
+
+theorem dictCalls_fuel_succ (g : DDag) : ∀ (f v : Nat) (k : Int), dictCalls g f v k ≠ .oof →
+    dictCalls g (f + 1) v k = dictCalls g f v k := by
+  intro f
+  induction f with
+  | zero => intro v k h; simp [dictCalls] at h
+  | succ n ih =>
+    intro v k h
+    conv => rhs; unfold dictCalls
+    conv => lhs; unfold dictCalls
+    conv at h => unfold dictCalls
+    cases hv : g[v]? with
+    | none => rfl
+    | some nd =>
+      rw [hv] at h
+      simp only [] at h ⊢
+      rcases hl : readLabel nd.bits k with ⟨l, it⟩
+      rw [hl] at h
+      cases l with
+      | none => rfl
+      | some l =>
+        simp only [] at h ⊢
+        split
+        · rfl
+        · rename_i h1
+          rw [if_neg h1] at h
+          split
+          · rfl
+          · rename_i h2
+            rw [if_neg h2] at h
+            cases hk : nd.kids with
+            | nil => rfl
+            | cons a rest =>
+              rw [hk] at h
+              simp only [] at h ⊢
+              cases ha : dictCalls g n a (k - (l : Int) - 1) with
+              | oof => rw [ha] at h; exact absurd rfl h
+              | raised s => rw [ih a _ (by rw [ha]; simp), ha]
+              | done s1 =>
+                rw [ih a _ (by rw [ha]; simp), ha]
+                rw [ha] at h
+                cases rest with
+                | nil => rfl
+                | cons b rest2 =>
+                  simp only [] at h ⊢
+                  cases hb : dictCalls g n b (k - (l : Int) - 1) with
+                  | oof => rw [hb] at h; exact absurd rfl h
+                  | raised s => rw [ih b _ (by rw [hb]; simp), hb]
+                  | done s2 => rw [ih b _ (by rw [hb]; simp), hb]
+
+/-- more fuel changes nothing once the parse did not run out of it -/
+theorem dictCalls_fuel_le (g : DDag) (f v : Nat) (k : Int) (h : dictCalls g f v k ≠ .oof) :
+    ∀ d, dictCalls g (f + d) v k = dictCalls g f v k := by
+  intro d
+  induction d with
+  | zero => rfl
+  | succ d ih =>
+    rw [← Nat.add_assoc, dictCalls_fuel_succ g (f + d) v k (by rw [ih]; exact h), ih]
+
+/-- the number of calls is bounded by the key length alone: the call tree is binary and at most `k + 1` levels deep -/
+theorem dictCalls_le_keylen (g : DDag) : ∀ (f v : Nat) (k : Int), (dictCalls g f v k).steps + 2 ≤ 2 ^ (k.toNat + 2) := by
+  intro f
+  induction f with
+  | zero =>
+    intro v k
+    have : 2 ^ 2 ≤ 2 ^ (k.toNat + 2) := Nat.pow_le_pow_right (by decide) (by omega)
+    simp [dictCalls, DRes.steps] at this ⊢; omega
+  | succ n ih =>
+    intro v k
+    have h4 : 2 ^ 2 ≤ 2 ^ (k.toNat + 2) := Nat.pow_le_pow_right (by decide) (by omega)
+    simp only [Nat.reducePow] at h4
+    unfold dictCalls
+    cases hv : g[v]? with
+    | none => simp only [DRes.steps]; omega
+    | some nd =>
+      simp only []
+      rcases hl : readLabel nd.bits k with ⟨l, it⟩
+      cases l with
+      | none => simp only [DRes.steps]; omega
+      | some l =>
+        have hle := readLabel_le hl
+        simp only []
+        split
+        · simp only [DRes.steps]; omega
+        · split
+          · simp only [DRes.steps]; omega
+          · rename_i hm
+            have hm' : k - (l : Int) ≠ 0 := by simpa using hm
+            have hsub : 2 ^ ((k - (l : Int) - 1).toNat + 2) ≤ 2 ^ (k.toNat + 1) :=
+              Nat.pow_le_pow_right (by decide) (by omega)
+            have hdbl : 2 ^ (k.toNat + 2) = 2 * 2 ^ (k.toNat + 1) := by rw [Nat.pow_succ]; omega
+            cases hkids : nd.kids with
+            | nil => simp only [DRes.steps]; omega
+            | cons a rest =>
+              simp only []
+              have iha := ih a (k - (l : Int) - 1)
+              cases ha : dictCalls g n a (k - (l : Int) - 1) with
+              | oof => simp only [DRes.steps]; omega
+              | raised s => rw [ha] at iha; simp only [DRes.steps] at iha ⊢; omega
+              | done s1 =>
+                rw [ha] at iha; simp only [DRes.steps] at iha
+                cases rest with
+                | nil => simp only [DRes.steps]; omega
+                | cons b rest2 =>
+                  simp only []
+                  have ihb := ih b (k - (l : Int) - 1)
+                  cases hb : dictCalls g n b (k - (l : Int) - 1) with
+                  | oof => simp only [DRes.steps]; omega
+                  | raised s => rw [hb] at ihb; simp only [DRes.steps] at ihb ⊢; omega
+                  | done s2 => rw [hb] at ihb; simp only [DRes.steps] at ihb ⊢; omega
+
+/-- more fuel changes nothing once the parse did not run out of it -/
+theorem dictParse_fuel_succ (g : DDag) : ∀ (f v : Nat) (k : Int), dictParse g f v k ≠ .oof →
+    dictParse g (f + 1) v k = dictParse g f v k := by
+  intro f
+  induction f with
+  | zero => intro v k h; simp [dictParse] at h
+  | succ n ih =>
+    intro v k h
+    conv => rhs; unfold dictParse
+    conv => lhs; unfold dictParse
+    conv at h => unfold dictParse
+    cases hv : g[v]? with
+    | none => rfl
+    | some nd =>
+      rw [hv] at h
+      simp only [] at h ⊢
+      rcases hl : readLabel nd.bits k with ⟨l, it⟩
+      rw [hl] at h
+      cases l with
+      | none => rfl
+      | some l =>
+        simp only [] at h ⊢
+        split
+        · rfl
+        · rename_i h1
+          rw [if_neg h1] at h
+          split
+          · rfl
+          · rename_i h2
+            rw [if_neg h2] at h
+            cases hk : nd.kids with
+            | nil => rfl
+            | cons a rest =>
+              rw [hk] at h
+              simp only [] at h ⊢
+              cases ha : dictParse g n a (k - (l : Int) - 1) with
+              | oof => rw [ha] at h; exact absurd rfl h
+              | raised s => rw [ih a _ (by rw [ha]; simp), ha]
+              | done s1 =>
+                rw [ih a _ (by rw [ha]; simp), ha]
+                rw [ha] at h
+                cases rest with
+                | nil => rfl
+                | cons b rest2 =>
+                  simp only [] at h ⊢
+                  cases hb : dictParse g n b (k - (l : Int) - 1) with
+                  | oof => rw [hb] at h; exact absurd rfl h
+                  | raised s => rw [ih b _ (by rw [hb]; simp), hb]
+                  | done s2 => rw [ih b _ (by rw [hb]; simp), hb]
+
+theorem dictParse_fuel_le (g : DDag) (f v : Nat) (k : Int) (h : dictParse g f v k ≠ .oof) :
+    ∀ d, dictParse g (f + d) v k = dictParse g f v k := by
+  intro d
+  induction d with
+  | zero => rfl
+  | succ d ih =>
+    rw [← Nat.add_assoc, dictParse_fuel_succ g (f + d) v k (by rw [ih]; exact h), ih]
 
 /-- `dictParse` (calls + unary-loop iterations) against `dictCalls` (calls only): same outcome, at most `1 + B` times the steps
 when no cell has more than `B` bits -/
